@@ -53,3 +53,53 @@ Definition unusual_at (isword : N -> bool) (s : list N) (k : nat) (c : N) : Prop
 Definition prefix_of (tp : ftp) : list N :=
   match tp with TpPos => [] | TpNo => s_no | TpPossible => s_possible | TpImpossible => s_impossible end.
 Definition format_flag (tp : ftp) (name : list N) : list N := prefix_of tp ++ name ++ s_format.
+
+(* ------------------------------------------------------------------ *)
+(* lines: the text between newlines ("^" / "$" of a MULTILINE regex)    *)
+Fixpoint join_lines (ls : list (list N)) : list N :=
+  match ls with
+  | [] => []
+  | [l] => l
+  | l :: r => l ++ 10 :: join_lines r
+  end.
+(* ls is the division of s into lines *)
+Definition lines_of (s : list N) (ls : list (list N)) : Prop :=
+  ls <> [] /\ Forall (fun l => ~ In 10 l) ls /\ join_lines ls = s.
+(* m is the first line of s that is a conflict marker *)
+Definition first_marker_line (s m : list N) : Prop :=
+  exists ls pre post, lines_of s ls /\ ls = pre ++ m :: post /\ marker_line m /\ Forall (fun l => ~ marker_line l) pre.
+
+(* the translations in the order they are examined: msgstr, then msgstr[0], msgstr[1], ... *)
+Definition translation_list (e : msg_entry) : list (list N) :=
+  (match me_msgstr e with [] => [] | _ => [me_msgstr e] end)
+  ++ (if existsb (fun s => match s with [] => false | _ => true end) (me_msgstr_plural e) then me_msgstr_plural e else []).
+
+(* ------------------------------------------------------------------ *)
+(* the po4a comment "type: Content of: <a><b>..." : one or more XML names in angle brackets
+   (https://www.w3.org/TR/REC-xml/#NT-NameStartChar) *)
+Definition xml_name_start (c : N) : Prop :=
+  c = 58 \/ (65 <= c /\ c <= 90) \/ c = 95 \/ (97 <= c /\ c <= 122)
+  \/ (192 <= c /\ c <= 214) \/ (216 <= c /\ c <= 246) \/ (248 <= c /\ c <= 767) \/ (880 <= c /\ c <= 893)
+  \/ (895 <= c /\ c <= 8191) \/ (8204 <= c /\ c <= 8205) \/ (8304 <= c /\ c <= 8591) \/ (11264 <= c /\ c <= 12271)
+  \/ (12289 <= c /\ c <= 55295) \/ (63744 <= c /\ c <= 64975) \/ (65008 <= c /\ c <= 65533) \/ (65536 <= c /\ c <= 983039).
+Definition xml_name_char (c : N) : Prop :=
+  xml_name_start c \/ c = 45 \/ c = 46 \/ (48 <= c /\ c <= 57) \/ c = 183 \/ (768 <= c /\ c <= 879) \/ c = 8255 \/ c = 8256.
+Definition xml_name (n : list N) : Prop := exists c r, n = c :: r /\ xml_name_start c /\ Forall xml_name_char r.
+Definition element_path (names : list (list N)) : list N := flat_map (fun n => 60 :: n ++ [62]) names.
+Definition xml_trigger_comment (s : list N) : Prop :=
+  exists names, names <> [] /\ Forall xml_name names /\ s = s_xml_trigger ++ element_path names.
+
+(* ------------------------------------------------------------------ *)
+(* unusual-character-in-translation: a character of a translation is reported unless msgid / msgid_plural
+   contain it as an unusual character too ("explained"), and only where it is seen first *)
+Definition explained (isword : N -> bool) (e : msg_entry) (c : N) : Prop :=
+  (exists k, unusual_at isword (me_msgid e) k c) \/ (exists p k, me_plural e = Some p /\ unusual_at isword p k c).
+(* c is an unexplained unusual character of the t-th translation of the j-th entry of the file *)
+Definition unexplained_at (isword : N -> bool) (cat : list msg_entry) (j t : nat) (c : N) : Prop :=
+  exists e s, nth_error cat j = Some e /\ message e /\ nth_error (translation_list e) t = Some s
+    /\ (exists k, unusual_at isword s k c) /\ ~ explained isword e c.
+Definition first_unexplained_at (isword : N -> bool) (cat : list msg_entry) (j t : nat) (c : N) : Prop :=
+  unexplained_at isword cat j t c
+  /\ forall j' t', (j' < j \/ (j' = j /\ t' < t))%nat -> ~ unexplained_at isword cat j' t' c.
+Definition unexplained_in (isword : N -> bool) (e : msg_entry) (c : N) : Prop :=
+  exists s, translation e s /\ (exists k, unusual_at isword s k c) /\ ~ explained isword e c.
